@@ -84,6 +84,19 @@ Proof.
 Qed.
 Print Assumptions C07_dtype_table.
 
+(* the argument forms that select the result element type: default / casting::auto give the C++ promotion (a narrow
+   element type widens to int), casting::same_kind / equiv keep the (common) operand type, an explicit dtype is the
+   result type — for each of the 11 element types *)
+Theorem C07_result_type_forms : forall a r,
+  binary_result_dtype CastDefault Arith a a = int_promote a
+  /\ binary_result_dtype CastAuto Arith a a = int_promote a
+  /\ binary_result_dtype CastSameKind Arith a a = a
+  /\ binary_result_dtype CastEquiv Arith a a = a
+  /\ binary_result_dtype (CastDtype r) Arith a a = r
+  /\ (bits a <? 32 = true -> is_float a = false -> binary_result_dtype CastDefault Arith a a = I32).
+Proof. exact binary_result_dtype_forms. Qed.
+Print Assumptions C07_result_type_forms.
+
 (* ---------- non-vacuity ---------- *)
 Definition iota7 (s : list Z) : operand Z := (s, fun i => horner 0 i s).
 Example C07_nonvacuous_binary :
@@ -99,6 +112,10 @@ Proof. eexists. split; [reflexivity|]. repeat split; reflexivity. Qed.
 Example C07_nonvacuous_outer : fst (outer Z.sub (iota7 [2]) (iota7 [3])) = [2; 3]
   /\ snd (outer Z.sub (iota7 [2]) (iota7 [3])) [1; 2] = 1 - 2.
 Proof. split; reflexivity. Qed.
+Example C07_nonvacuous_forms :
+  typed_binary CastDefault Z.mul I8 I8 100 2 = 200 /\ typed_binary CastSameKind Z.mul I8 I8 100 2 = -56
+  /\ typed_binary (CastDtype I16) Z.add U8 U8 200 100 = 300 /\ typed_binary CastEquiv Z.sub U16 U16 200 300 = 65436.
+Proof. repeat split; reflexivity. Qed.
 Example C07_nonvacuous_dtype : promote_cxx I8 I8 = I32 /\ promote_cxx I32 U32 = U32 /\ promote_cxx U32 I64 = I64
   /\ promote_cxx I64 U64 = U64 /\ promote_cxx I64 F32 = F32 /\ result_dtype None Compare F64 I8 = Bool.
 Proof. repeat split; reflexivity. Qed.
